@@ -37,6 +37,8 @@ def make_calls(g, cg, pg, rg, doc):
     calls = []
     ct = cg.tree(doc, depth=g.r.choice([0, 1, 2]), null_p=0.1)
     pt = pg.path(doc, max_len=3, mods_p=0.2)
+    if g.r.random() < 0.2:
+        pt.has_src, pt.src = True, copy_value(doc)      # a path bound to its own source data (a plain container the caller keeps)
     rts = rg.schema(doc, g.r.randint(1, 3), cast_p=0.4, path_args_p=0.3)     # conditions that look at other nodes through data paths
     calls.append(("cond.filter", lambda: ct.build(), lambda o, d: obs_fd(o.filter(d))))
     calls.append(("Data.filter", lambda: ct.build(), lambda o, d: obs_fd(v.Data(d).filter(o))))
